@@ -44,6 +44,12 @@
  *      from one below the first area up to 0xffffffff with address + length
  *      <= 2^32 (nothing wraps) x the three operations of P1.  The reference
  *      forms every exclusive end in 64 bits.
+ *  P8  access flags x accessor presence: three adjacent areas, the area at
+ *      each position x {memory-, callback-backed} x READABLE flag x read
+ *      function present/absent x WRITEABLE flag x write function
+ *      present/absent, at address 1 and ending at 0xffffffff, every window x
+ *      the three operations.  An area is readable when it is flagged readable
+ *      and names a read function; every other area reads zero.
  */
 #include "mc.h"
 #include "regfam.h"
@@ -92,10 +98,29 @@ iter_cb(RegisterTable *t, RegisterHandle h, void *arg)
     return (k == it.stop_at) ? it.result : 0;
 }
 
-/* areas of the table under construction that get no read function at all (only
- * set for areas that are not flagged readable) */
+/* areas of the table under construction that get no read function at all (P2:
+ * areas that are not flagged readable; P8: whatever the flags say) */
 static bool g_noread[RT_MAXA];
 static bool g_has_empty; /* the table under construction belongs to the zero-sized-area family */
+
+/* "Areas that are not readable": an area is readable when it is flagged
+ * readable AND names a read function.  Without a read function there is nothing
+ * the library could call to learn a word, whatever the flags say, so its words
+ * read zero (and the read still succeeds: all addresses are mapped). */
+static bool
+c03_readable(const struct tspec *s, int ai)
+{
+    return flat_readable(&s->a[ai]) && !g_noread[ai];
+}
+
+/* flagged readable, no read function, but a mem pointer: a library may just as
+ * well take the words from mem (register_mcopy and register_init treat
+ * mem != NULL as memory-backed) -- zero and the stored word are both accepted */
+static bool
+c03_either(const struct tspec *s, int ai)
+{
+    return flat_readable(&s->a[ai]) && g_noread[ai] && !s->a[ai].cb;
+}
 
 #ifdef C03_HYBRID_AREAS
 /* OFF by default (see checks.d/C03.py, assumptions): areas with a custom read
@@ -115,7 +140,7 @@ ref_cb_chunks(const struct tspec *s, uint32_t addr, uint32_t n)
     int k = 0;
     /* exclusive ends in 64 bits: an area or a window may end at 2^32 */
     for (int i = 0; i < s->na; ++i)
-        if (s->a[i].cb && flat_readable(&s->a[i]) && n > 0 && s->a[i].base < (uint64_t)addr + n && addr < (uint64_t)s->a[i].base + s->a[i].size)
+        if (s->a[i].cb && c03_readable(s, i) && n > 0 && s->a[i].base < (uint64_t)addr + n && addr < (uint64_t)s->a[i].base + s->a[i].size)
             k++;
     return k;
 }
@@ -168,11 +193,12 @@ do_read(uint32_t addr, uint32_t n, int fault_k)
         else if (a.code == REG_ACCESS_SUCCESS)
             for (uint32_t i = 0; i < n; ++i) {
                 const int ai = flat_area_of(s, addr + i);
-                const RegisterAtom want = flat_readable(&s->a[ai]) ? flat_word(&tb, addr + i) : 0;
-                if (!flat_readable(&s->a[ai]))
+                const bool rd = c03_readable(s, ai);
+                const RegisterAtom want = rd ? flat_word(&tb, addr + i) : 0;
+                if (!rd)
                     outcome = "read-ok-with-unreadable";
-                if (buf[i] != want) {
-                    mc_fail(flat_readable(&s->a[ai]) ? "C03/read-returns-stored-word" : "C03/unreadable-reads-zero",
+                if (buf[i] != want && !(c03_either(s, ai) && buf[i] == flat_word(&tb, addr + i))) {
+                    mc_fail(rd ? "C03/read-returns-stored-word" : "C03/unreadable-reads-zero",
                             "word %u (address %u): got %04x, expected %04x", i, addr + i, buf[i], want);
                     break;
                 }
@@ -207,6 +233,10 @@ do_iter(uint32_t addr, uint32_t len)
         if (len > 0 && ra < (uint64_t)addr + len && addr < (uint64_t)ra + rw) /* either may end at 2^32 */
             expect[ne++] = r;
     }
+    bool touches_mapped = false; /* at least one address of the range belongs to an area */
+    for (int i = 0; i < s->na; ++i)
+        if (len > 0 && s->a[i].size > 0 && s->a[i].base < (uint64_t)addr + len && addr < (uint64_t)s->a[i].base + s->a[i].size)
+            touches_mapped = true;
     bool ok = true;
     /* scripts: never stop; stop at call k with -1 / +1; wide: stop at the first
      * / at the last overlapping register with every wide result */
@@ -251,8 +281,15 @@ do_iter(uint32_t addr, uint32_t len)
                     ok = false;
                 }
             } else if (a.code != REG_ACCESS_SUCCESS) {
-                mc_fail("C03/iter-success", "iteration returned %s", acc(a.code));
-                ok = false;
+                /* the statement does not fix the answer of an iteration that
+                 * has nothing to do with the table: no callback called and no
+                 * address of the range mapped (an empty range, a range in a
+                 * hole or outside every area) -- any code is accepted there */
+                if (it.calls > 0 || touches_mapped) {
+                    mc_fail("C03/iter-success", "iteration returned %s", acc(a.code));
+                    ok = false;
+                } else
+                    mc_log("foreach_in(%u,%u): no callback called, no address of the range mapped: %s@%u not judged", addr, len, acc(a.code), a.address);
             }
         }
     }
@@ -279,6 +316,7 @@ top_outcome(const char *o, bool to_last)
     if (!strcmp(o, "read-ok")) return to_last ? "top-read-ok-to-last-word" : "top-read-ok";
     if (!strcmp(o, "read-ok-with-unreadable")) return to_last ? "top-read-ok-with-unreadable-to-last-word" : "top-read-ok-with-unreadable";
     if (!strcmp(o, "read-ok-no-read-function")) return "top-read-ok-no-read-function";
+    if (!strcmp(o, "read-ok-flagged-readable-no-read-function")) return "top-read-ok-flagged-readable-no-read-function";
     if (!strcmp(o, "read-unmapped")) return "top-read-unmapped";
     if (!strcmp(o, "fault-not-reached")) return "top-fault-not-reached";
     if (!strcmp(o, "fault-first-chunk")) return "top-fault-first-chunk";
@@ -335,7 +373,7 @@ run_table(const struct tspec *s, int ti)
 #endif
                         RegisterInit ri = register_init(&tb.t);
                         tb_built = true;
-                        init_ok = ri.code == REG_INIT_SUCCESS && (tb.t.flags & REG_TF_INITIALISED);
+                        init_ok = ri.code == REG_INIT_SUCCESS; /* the public answer; where the library keeps "initialised" is its own business */
                         if (!init_ok)
                             mc_log("register_init -> code %d at %u", ri.code, ri.pos.entry);
                         else
@@ -355,10 +393,18 @@ run_table(const struct tspec *s, int ti)
                         continue;
                     }
                     const char *o = mode == 1 ? do_iter(addr, n) : do_read(addr, n, mode == 2 ? k : -1);
-                    if (!strcmp(o, "read-ok-with-unreadable"))
-                        for (uint32_t w = 0; w < n; ++w)
-                            if (g_noread[flat_area_of(s, addr + w)])
+                    if (!strcmp(o, "read-ok-with-unreadable")) {
+                        bool flagged = false;
+                        for (uint32_t w = 0; w < n; ++w) {
+                            const int ai = flat_area_of(s, addr + w);
+                            if (g_noread[ai]) {
                                 o = "read-ok-no-read-function";
+                                flagged |= flat_readable(&s->a[ai]);
+                            }
+                        }
+                        if (flagged) /* the window takes words from an area flagged readable that names no read function */
+                            o = "read-ok-flagged-readable-no-read-function";
+                    }
                     if (g_has_empty && !strcmp(o, "read-ok"))
                         for (int i = 0; i < s->na; ++i)
                             if (s->a[i].size == 0 && addr < s->a[i].base && s->a[i].base - addr < n)
@@ -427,6 +473,42 @@ xfam_enumerate(fam_fn fn, int idx)
             memset(g_noread, 0, sizeof g_noread);
         }
     }
+    return idx;
+}
+
+/* P8: access flags x accessor presence.  Three directly adjacent areas (the
+ * layout of P2); the area at position p takes every combination of
+ *   {memory-backed, callback-backed} x READABLE flag {set, clear} x read
+ *   function {present, absent} x WRITEABLE flag {set, clear} x write function
+ *   {present, absent}
+ * (32 combinations; the header's CUSTOM_AREA / MAKE_CUSTOM_AREA with a NULL
+ * accessor, CUSTOM_AREA_RO / _WO and their memory twins are among them), its
+ * two neighbours are plain RW areas, both callback-backed or both
+ * memory-backed.  One 16-bit register at the base of every area. */
+static int
+afam_enumerate(fam_fn fn, int idx)
+{
+    struct tspec s;
+    for (int p = 0; p < 3; ++p)
+        for (int nb = 0; nb < 2; ++nb)
+            for (int c = 0; c < 32; ++c) {
+                memset(&s, 0, sizeof s);
+                s.na = 3;
+                for (int i = 0; i < 3; ++i) {
+                    xfam_area(&s.a[i], XLAYOUTS[0].base[i] + x_shift, XLAYOUTS[0].size[i], nb);
+                    s.r[s.nr].type = REG_TYPE_UINT16;
+                    s.r[s.nr].addr = s.a[i].base;
+                    fam_constrain(&s.r[s.nr], K_NONE);
+                    s.nr++;
+                }
+                s.a[p].flags = (uint16_t)(((c & 1) ? REG_AF_READABLE : 0) | ((c & 4) ? REG_AF_WRITEABLE : 0));
+                g_noread[p] = !(c & 2);
+                s.a[p].nowrite = !(c & 8);
+                s.a[p].cb = !(c & 16);
+                s.be = (c & 1) ^ (p & 1);
+                fn(&s, idx++);
+                memset(g_noread, 0, sizeof g_noread);
+            }
     return idx;
 }
 
@@ -701,7 +783,7 @@ run_history(char lname, const struct layout *l, int backing, bool deep, const in
                         ri = register_init(&tb.t);
                         mc_log("init #%d (%s) -> code %d at %u", i, nm[i], ri.code, ri.pos.entry);
                     }
-                    init_ok = ri.code == REG_INIT_SUCCESS && (tb.t.flags & REG_TF_INITIALISED);
+                    init_ok = ri.code == REG_INIT_SUCCESS; /* the public answer; where the library keeps "initialised" is its own business */
                     if (init_ok)
                         fill_distinct();
                 }
@@ -911,7 +993,7 @@ big_build(int shape, uint32_t N)
     bg.t.entry = bg.entries;
     RegisterInit ri = register_init(&bg.t);
     mc_log("register_init of %u entries -> code %d at %u", bg.nr, ri.code, ri.pos.entry);
-    bg.init_ok = ri.code == REG_INIT_SUCCESS && (bg.t.flags & REG_TF_INITIALISED);
+    bg.init_ok = ri.code == REG_INIT_SUCCESS; /* the public answer only */
     if (!bg.cb)
         for (int i = 0; i < bg.na; ++i)
             for (uint32_t w = 0; w < bg.size[i]; ++w)
@@ -952,6 +1034,10 @@ big_iter(uint32_t addr, uint32_t len)
                 h0 = r;
             ne++;
         }
+    bool touches_mapped = false;
+    for (int i = 0; i < bg.na; ++i)
+        if (len > 0 && bg.size[i] > 0 && bg.base[i] < (uint64_t)addr + len && addr < (uint64_t)bg.base[i] + bg.size[i])
+            touches_mapped = true;
     /* scripts: never stop; first call -1 / +1; last call -1 / +1; first call
      * with every wide result */
     const int nbase = ne == 0 ? 1 : ne == 1 ? 3 : 5;
@@ -991,8 +1077,13 @@ big_iter(uint32_t addr, uint32_t len)
                 return "failed";
             }
         } else if (a.code != REG_ACCESS_SUCCESS) {
-            mc_fail("C03/iter-success", "iteration returned %s", acc(a.code));
-            return "failed";
+            /* as in do_iter: not judged when no callback was called and no
+             * address of the range is mapped */
+            if (bit.calls > 0 || touches_mapped) {
+                mc_fail("C03/iter-success", "iteration returned %s", acc(a.code));
+                return "failed";
+            }
+            mc_log("foreach_in(%u,%u): no callback called, no address of the range mapped: %s@%u not judged", addr, len, acc(a.code), a.address);
         }
     }
     return ne == 0 ? "big-iter-none" : h0 >= 65536u ? "big-iter-first-handle-from-64k" : h0 + ne > 65536u ? "big-iter-across-64k" : "big-iter-below-64k";
@@ -1182,9 +1273,16 @@ main(int argc, char **argv)
     const int ntopfam = ntab - ntop0;
     x_shift = X_TOP_SHIFT;
     ntab = xfam_enumerate(run_table, ntab);
-    x_shift = 0;
     const int ntopx = ntab - ntop0 - ntopfam;
-    char bound[1300];
+    /* P8: access flags x accessor presence, at the bottom and at the top */
+    x_shift = 0;
+    const int nacc0 = ntab;
+    ntab = afam_enumerate(run_table, ntab);
+    x_shift = X_TOP_SHIFT;
+    ntab = afam_enumerate(run_table, ntab);
+    x_shift = 0;
+    const int nacc = ntab - nacc0;
+    char bound[1700];
     snprintf(bound, sizeof bound,
              "%d family tables + %d tables of 3/4 adjacent areas + %d tables at address shifts 0x7ffffffc/0xfffffff5 + %d tables with one or two zero-sized areas at every list position and admissible base x every (address,length) over 10 addresses x "
              "{block read, iteration with every stop script (results +-1 at every position; +-2, +-256, +-65536, INT_MIN/MAX at the first and last position), "
@@ -1192,8 +1290,11 @@ main(int argc, char **argv)
              "x every window x {block read, iteration}; %d tables of 65534..65544 registers x windows around 2^16 and the area edges; "
              "top of the address space: %d family tables (layouts A-D moved up so that the last word is 0xffffffff x mem/cb x LE/BE x singles at every placement, pairs, "
              "curated lists, every access-flag combination of F2) + %d tables of 3/4 adjacent areas ending at 0xffffffff x every (address,length) from one below the "
-             "first area up to 0xffffffff with address+length <= 2^32 x the same three operations",
-             nfam, nx, nshift, nzero, (long long)hist_count, th ? " and triples" : "", nbig, ntopfam, ntopx);
+             "first area up to 0xffffffff with address+length <= 2^32 x the same three operations; "
+             "access flags x accessor presence: %d tables of 3 adjacent areas (the area at each position x {memory-, callback-backed} x READABLE flag x read function "
+             "present/absent x WRITEABLE flag x write function present/absent, neighbours RW callback-/memory-backed; at address 1 and ending at 0xffffffff) x every "
+             "(address,length) x the same three operations",
+             nfam, nx, nshift, nzero, (long long)hist_count, th ? " and triples" : "", nbig, ntopfam, ntopx, nacc);
     mc_finish(true, bound);
     return 0;
 }
